@@ -150,3 +150,140 @@ func ruleLinkSearchComplete(w *World, r *Report) {
 	_ = types.Typ
 	_ = fmt.Sprint
 }
+
+// ---- C05-B -----------------------------------------------------------------------------------------------
+
+// ruleUnlinkedOpenerLeavesTree: a bracket opener ('[' / '![' bookkeeping node) that has been taken off the pending list
+// is also taken out of the tree before the function returns, on every path.
+func ruleUnlinkedOpenerLeavesTree(w *World, r *Report) {
+	r.Rule("C05-B", "Bracket openers are kept twice: as bookkeeping nodes in the tree and in a pending list in the parse context; the end-of-block sweep that turns leftovers into text walks the list only. Wherever the module takes an opener X off that list (a call of the function that unlinks its argument from the pending list, recognised by clearing the argument's own Next and Prev links), every path from that call to a return disposes of X in the tree as well — a call that takes X as the node to replace or remove (MergeOrReplaceTextSegment(_, X, …), ReplaceChild(_, X, _), RemoveChild(_, X)). Otherwise a bookkeeping node of a private kind survives into the parsed tree.")
+	// the unlinking function: module function in package parser with a parameter of a type that embeds BaseInline and
+	// has Prev/Next fields of its own pointer type, storing to those fields
+	var unlinkers []*ssa.Function
+	for _, fn := range w.Funcs {
+		if w.PkgOf(fn) != modPath+"/parser" || fn.Parent() != nil || len(fn.Params) != 2 {
+			continue
+		}
+		p := fn.Params[1]
+		n := namedOf(p.Type())
+		if n == nil {
+			continue
+		}
+		st, ok := n.Underlying().(*types.Struct)
+		if !ok {
+			continue
+		}
+		hasPrev := false
+		for i := 0; i < st.NumFields(); i++ {
+			if st.Field(i).Name() == "Prev" && namedOf(st.Field(i).Type()) == n {
+				hasPrev = true
+			}
+		}
+		if !hasPrev {
+			continue
+		}
+		// it clears the argument's own links: stores nil into both p.Next and p.Prev
+		cleared := map[string]bool{}
+		for _, b := range fn.Blocks {
+			for _, ins := range b.Instrs {
+				if s, ok := ins.(*ssa.Store); ok && isNilConst(s.Val) {
+					if fa, ok := s.Addr.(*ssa.FieldAddr); ok && fa.X == ssa.Value(p) {
+						if _, f := fieldOfAddr(fa); f != nil {
+							cleared[f.Name()] = true
+						}
+					}
+				}
+			}
+		}
+		stores := cleared["Next"] && cleared["Prev"]
+		if stores && fn.Signature.Results().Len() == 0 {
+			unlinkers = append(unlinkers, fn)
+		}
+	}
+	if len(unlinkers) == 0 {
+		r.Unknown("function unlinking a bracket opener from the pending list", "", "not found")
+		return
+	}
+	isUnlinker := func(f *ssa.Function) bool {
+		for _, u := range unlinkers {
+			if u == f {
+				return true
+			}
+		}
+		return false
+	}
+	n := 0
+	for _, fn := range w.Funcs {
+		if w.PkgOf(fn) != modPath+"/parser" {
+			continue
+		}
+		for _, b := range fn.Blocks {
+			for idx, ins := range b.Instrs {
+				c, ok := ins.(*ssa.Call)
+				if !ok || !isUnlinker(c.Common().StaticCallee()) {
+					continue
+				}
+				n++
+				x := nodeRoot(c.Common().Args[1])
+				key := fmt.Sprintf("%s: unlinked opener %s leaves the tree", w.FnKey(fn), stableName(x))
+				disposes := func(i ssa.Instruction) bool {
+					cc, ok := i.(ssa.CallInstruction)
+					if !ok {
+						return false
+					}
+					com := cc.Common()
+					name := callName(cc)
+					var old ssa.Value
+					switch name {
+					case "MergeOrReplaceTextSegment":
+						if len(com.Args) >= 2 {
+							old = com.Args[1]
+						}
+					case "ReplaceChild", "RemoveChild":
+						args := com.Args
+						if !com.IsInvoke() && len(args) > 0 {
+							args = args[1:]
+						}
+						if len(args) >= 2 {
+							old = args[1]
+						}
+					}
+					return old != nil && nodeRoot(old) == x
+				}
+				leak := ""
+				seen := map[*ssa.BasicBlock]bool{}
+				var dfs func(bb *ssa.BasicBlock, from int)
+				dfs = func(bb *ssa.BasicBlock, from int) {
+					if leak != "" {
+						return
+					}
+					if from == 0 {
+						if seen[bb] {
+							return
+						}
+						seen[bb] = true
+					}
+					for _, i2 := range bb.Instrs[from:] {
+						if disposes(i2) {
+							return
+						}
+						if ret, ok := i2.(*ssa.Return); ok {
+							leak = w.InstrPos(ret)
+							return
+						}
+					}
+					for _, s := range bb.Succs {
+						dfs(s, 0)
+					}
+				}
+				dfs(b, idx+1)
+				if leak != "" {
+					r.Bad(key, w.InstrPos(c), "the function can return ("+leak+") with the opener off the pending list but still in the tree: the end-of-block sweep will not find it")
+				} else {
+					r.OK(key, w.InstrPos(c), "every path to a return replaces or removes the node")
+				}
+			}
+		}
+	}
+	r.Expect("calls unlinking a bracket opener", n, 1)
+}
